@@ -294,6 +294,11 @@ func runWorker(c *Check, tier string, root uint64) {
 			fmt.Fprintf(os.Stderr, "worker: bad seed %q\n", line)
 			os.Exit(2)
 		}
+		provisional = func(p workerResult) {
+			b, _ := json.Marshal(p)
+			fmt.Fprintf(out, "@@P %s\n", b)
+			out.Flush()
+		}
 		res := runSeed(c, tier, root, seed)
 		b, _ := json.Marshal(res)
 		fmt.Fprintf(out, "@@R %s\n", b)
@@ -335,6 +340,28 @@ func runSeed(c *Check, tier string, root, seed uint64) workerResult {
 	res := workerResult{Seed: seed, Outcome: o, CaseLen: len(cs)}
 	if o.Harness != "" || len(o.Violations) == 0 {
 		return res
+	}
+	// Before anything is minimised, the violations go to the parent as they are (with
+	// unminimised replay files): a worker that dies while it shrinks - candidates can be
+	// far heavier than the case itself - must not take the finding with it.
+	if provisional != nil {
+		pres := workerResult{Seed: seed, Outcome: o, CaseLen: len(cs)}
+		pseen := map[string]bool{}
+		for _, v := range o.Violations {
+			key := v.Property + "|" + v.Sig
+			if pseen[key] {
+				continue
+			}
+			pseen[key] = true
+			rf := ReplayFile{Property: v.Property, Sig: v.Sig, Msg: v.Msg, Seed: seed, RootSeed: root, Tier: tier, OrigSize: len(cs), Case: cs}
+			path := filepath.Join(replayDir(), fmt.Sprintf("%s-%d-%x-unminimised.json", v.Property, seed, simrt.HashString(v.Sig)&0xffff))
+			b, _ := json.MarshalIndent(rf, "", " ")
+			if os.WriteFile(path, b, 0644) == nil {
+				pres.Replays = append(pres.Replays, path)
+				pres.Viol = append(pres.Viol, v)
+			}
+		}
+		provisional(pres)
 	}
 	// one replay file per distinct (property, signature)
 	seen := map[string]bool{}
@@ -382,9 +409,13 @@ func runSeed(c *Check, tier string, root, seed uint64) workerResult {
 		}
 		res.Replays = append(res.Replays, path)
 		res.Viol = append(res.Viol, mv)
+		os.Remove(filepath.Join(replayDir(), fmt.Sprintf("%s-%d-%x-unminimised.json", v.Property, seed, simrt.HashString(v.Sig)&0xffff)))
 	}
 	return res
 }
+
+// provisional, in a worker, sends a result to the parent ahead of the final one.
+var provisional func(workerResult)
 
 // ---------------------------------------------------------------------------
 // Replay: re-execute a replay file in this (fresh) process.
@@ -449,11 +480,12 @@ type evidence struct {
 }
 
 type workerProc struct {
-	watchdog string // set when the parent killed the worker
-	cmd      *exec.Cmd
-	stdin    io.WriteCloser
-	stdout   *bufio.Reader
-	stderr   *tailBuffer
+	provisional *workerResult // what the worker reported before it started minimising
+	watchdog    string        // set when the parent killed the worker
+	cmd         *exec.Cmd
+	stdin       io.WriteCloser
+	stdout      *bufio.Reader
+	stderr      *tailBuffer
 }
 
 type tailBuffer struct {
@@ -525,6 +557,14 @@ func spawn(bin, role, id, tier string, root uint64, extraEnv ...string) (*worker
 // runtime dumps all goroutine stacks to stderr) and the death is reported as
 // harness trouble.
 func (w *workerProc) readResultWatched(c *Check, seed uint64) (*workerResult, error) {
+	return w.readResultWatchedMem(c, seed, 8<<30)
+}
+
+// heavyRetry serialises the second attempts of seeds whose worker outgrew the memory
+// watchdog: one at a time, alone in a fresh process, with a three times larger bound.
+var heavyRetry sync.Mutex
+
+func (w *workerProc) readResultWatchedMem(c *Check, seed uint64, memLimit uint64) (*workerResult, error) {
 	type rr struct {
 		r   *workerResult
 		err error
@@ -546,9 +586,9 @@ func (w *workerProc) readResultWatched(c *Check, seed uint64) (*workerResult, er
 		case x := <-ch:
 			return x.r, x.err
 		case <-tick.C:
-			if rss := rssOf(w.cmd.Process.Pid); rss > 8<<30 {
+			if rss := rssOf(w.cmd.Process.Pid); rss > memLimit {
 				w.watchdog = fmt.Sprintf("WATCHDOG: seed %d: worker resident memory %d MiB", seed, rss>>20)
-				if rss > 20<<30 {
+				if rss > memLimit+12<<30 {
 					w.cmd.Process.Kill() // growing by gigabytes per second: protect the machine first
 				} else {
 					w.cmd.Process.Signal(syscall.SIGQUIT)
@@ -582,6 +622,13 @@ func rssOf(pid int) uint64 {
 func (w *workerProc) readResult() (*workerResult, error) {
 	for {
 		line, err := w.stdout.ReadString('\n')
+		if strings.HasPrefix(line, "@@P ") {
+			var r workerResult
+			if json.Unmarshal([]byte(strings.TrimSpace(line[4:])), &r) == nil {
+				w.provisional = &r
+			}
+			continue
+		}
 		if strings.HasPrefix(line, "@@R ") {
 			var r workerResult
 			if e := json.Unmarshal([]byte(strings.TrimSpace(line[4:])), &r); e != nil {
@@ -677,6 +724,39 @@ func runParent(c *Check, tier string, root uint64) int {
 					}
 					fmt.Fprintf(w.stdin, "%d\n", seed)
 					r, err := w.readResultWatched(c, seed)
+					diedShrinking := false
+					if err != nil && w.provisional != nil && w.provisional.Seed == seed {
+						// the worker died (or was stopped by the watchdog) while it was minimising
+						// what it had already reported: the report stands, unminimised
+						w.cmd.Wait()
+						r, err, diedShrinking = w.provisional, nil, true
+						if r.Outcome.Stats == nil {
+							r.Outcome.Stats = map[string]int64{}
+						}
+						r.Outcome.Stats["worker_died_while_minimising"] = 1
+					}
+					if err != nil && strings.Contains(w.watchdog, "resident memory") {
+						// The worker outgrew the memory watchdog. That is usually the product
+						// allocating from a number it read somewhere (which the case's own oracles
+						// report when the run is allowed to end): the seed gets one more
+						// execution, alone in a fresh process, with a larger bound.
+						w.cmd.Wait()
+						heavyRetry.Lock()
+						if w2, e2 := spawn(bin, "worker", c.ID, tier, root, "VERIF_LEG="+leg); e2 == nil {
+							fmt.Fprintf(w2.stdin, "%d\n", seed)
+							r2, err2 := w2.readResultWatchedMem(c, seed, 24<<30)
+							if err2 == nil {
+								r, err = r2, nil
+								served = recycleEvery + 1<<20 // this process is not used again
+								w = w2
+							} else {
+								w2.cmd.Wait()
+								w.watchdog = w2.watchdog + " (second attempt, alone, after: " + w.watchdog + ")"
+								w.stderr = w2.stderr
+							}
+						}
+						heavyRetry.Unlock()
+					}
 					if err != nil {
 						// worker died while executing this seed
 						w.cmd.Wait()
@@ -702,7 +782,12 @@ func runParent(c *Check, tier string, root uint64) int {
 					}
 					mu.Unlock()
 					served++
-					if r.Outcome.Poisoned || (recycleEvery > 0 && served >= recycleEvery) {
+					if diedShrinking {
+						w = nil
+						served = 0
+						continue
+					}
+					if r.Outcome.Poisoned || (recycleEvery > 0 && served >= recycleEvery) || served > 1<<20 {
 						served = 0
 						w.stdin.Close()
 						w.cmd.Process.Kill()
